@@ -521,18 +521,76 @@ func runC20(c *Ctx) {
 	}
 	c.check(bad == "", "C20.R4", "table-writers kbuild", "Redirects is written only by FindRedirects", bad)
 	gc := newIG(m, complete, nil)
+	// the places where an address of an entry goes out to the image: binary.Write
+	// of the value, or the value encoded little-endian into a buffer
+	// (ByteOrder.PutUint64) that is then handed to the file's Write
 	writes := []struct {
 		n   int
 		fld *types.Var
+		val ssa.Value
 	}{}
+	bufBase := func(v ssa.Value) ssa.Value {
+		for i := 0; i < 4; i++ {
+			switch t := v.(type) {
+			case *ssa.Slice:
+				v = t.X
+			case *ssa.Convert:
+				v = t.X
+			case *ssa.ChangeType:
+				v = t.X
+			default:
+				return v
+			}
+		}
+		return v
+	}
 	for n, in := range gc.Ins {
 		cc := callCommon(in)
-		if cc == nil || !extFn(cc, "encoding/binary", "Write") {
+		if cc == nil {
 			continue
 		}
-		v := cc.Args[2]
-		if mi, ok := v.(*ssa.MakeInterface); ok {
-			v = mi.X
+		var v ssa.Value
+		at := n
+		switch {
+		case extFn(cc, "encoding/binary", "Write"):
+			v = cc.Args[2]
+			if mi, ok := v.(*ssa.MakeInterface); ok {
+				v = mi.X
+			}
+			if k, ok := cc.Args[1].(*ssa.MakeInterface); !ok || !strings.Contains(k.X.Type().String(), "littleEndian") {
+				v = nil // (the boot code reads little-endian words)
+			}
+		case extFn(cc, "encoding/binary", "PutUint64") && strings.Contains(cc.StaticCallee().String(), "littleEndian") && len(cc.Args) == 3:
+			buf := bufBase(cc.Args[1])
+			isWr := func(k int) bool {
+				c2 := callCommon(gc.Ins[k])
+				if c2 == nil || k == n {
+					return false
+				}
+				name := ""
+				if c2.IsInvoke() {
+					name = c2.Method.Name()
+				} else if f := c2.StaticCallee(); f != nil {
+					name = f.Name()
+				}
+				if name != "Write" {
+					return false
+				}
+				for _, a := range c2.Args {
+					if bufBase(a) == buf {
+						return true
+					}
+				}
+				return false
+			}
+			if ok, _ := gc.MustPassAfter(n, isWr, isRet(gc)); ok {
+				if p := gc.Path(gc.Succ[n], nil, nil, isWr); p != nil {
+					v, at = cc.Args[2], p[len(p)-1]
+				}
+			}
+		}
+		if v == nil {
+			continue
 		}
 		_, fl, ok := loadedField(v)
 		if ok && (fl == srcAddr || fl == dstAddr) {
@@ -540,7 +598,8 @@ func runC20(c *Ctx) {
 			writes = append(writes, struct {
 				n   int
 				fld *types.Var
-			}{n, fl})
+				val ssa.Value
+			}{at, fl, v})
 		}
 	}
 	bad = ""
@@ -548,9 +607,10 @@ func runC20(c *Ctx) {
 		bad = fmt.Sprintf("expected one write of SrcVirtAddr and one of DstVirtAddr per entry, found %d", len(writes))
 	} else {
 		var sn, dn int
+		var srcVal ssa.Value
 		for _, w := range writes {
 			if w.fld == srcAddr {
-				sn = w.n
+				sn, srcVal = w.n, w.val
 			} else {
 				dn = w.n
 			}
@@ -566,11 +626,7 @@ func runC20(c *Ctx) {
 			// the element written in iteration T is Redirects[T] (induction form)
 			asc := false
 			var elemIdx ssa.Value
-			if cc := callCommon(gc.Ins[sn]); cc != nil {
-				v := cc.Args[2]
-				if mi, ok := v.(*ssa.MakeInterface); ok {
-					v = mi.X
-				}
+			if v := srcVal; v != nil {
 				if bv, _, ok := loadedField(v); ok {
 					for i := 0; i < 3 && bv != nil; i++ {
 						switch t := bv.(type) {
